@@ -2,3 +2,41 @@
 pub fn handle_unwind_nopanic<R, F: FnOnce() -> R, G: FnOnce()>(try_fn: F, _catch: G) -> R {
 	try_fn()
 }
+
+// ---- HashSet under an assumed contract (DESIGN §2 fact 6; hashbrown + SipHash is out of CBMC's reach)
+//
+// Contract assumed: `with_capacity` returns an empty set; `insert(v)` returns true iff `v` was not
+// inserted before.  Elements are modelled by their 8-byte representation (the only use in the crate is a
+// set of `*const ()`).
+use std::collections::hash_map::RandomState;
+use std::collections::HashSet;
+
+pub static mut HS_SEEN: [usize; 8] = [0; 8];
+pub static mut HS_LEN: usize = 0;
+
+pub fn hs_with_capacity<T>(_capacity: usize) -> HashSet<T, RandomState> {
+	unsafe {
+		HS_LEN = 0;
+		// a RandomState is two u64 keys; the model never hashes
+		HashSet::with_hasher(core::mem::zeroed::<RandomState>())
+	}
+}
+
+pub fn hs_insert<T, S, A: std::alloc::Allocator>(_this: &mut HashSet<T, S, A>, value: T) -> bool {
+	assert!(core::mem::size_of::<T>() == core::mem::size_of::<usize>());
+	let a: usize = unsafe { core::mem::transmute_copy(&value) };
+	core::mem::forget(value);
+	unsafe {
+		let mut i = 0;
+		while i < HS_LEN {
+			if HS_SEEN[i] == a {
+				return false;
+			}
+			i += 1;
+		}
+		assert!(HS_LEN < 8);
+		HS_SEEN[HS_LEN] = a;
+		HS_LEN += 1;
+	}
+	true
+}
